@@ -132,3 +132,24 @@ PROPS["C06"] = dict(
     unproved=["C06_canon: decode bs = ok p -> WF (relen p) and decode (encode (relen p)) = ok (relen p)  (oracle only)",
               "user operations / Report decoders (oracle only)"],
 )
+
+PROPS["C16"] = dict(
+    title="A datagram is decoded from its own bytes only",
+    module="Cfdp.Props.C16",
+    namespace="Cfdp.Udp",
+    theorems=["C16", "receive_window", "bufferAfter_length"],
+    engines=["udp"],
+    design="§6 C16",
+    technique="Lean 4 proof over a model of the reused receive buffer + differential correspondence with a real UdpTransport on loopback",
+    level_text=("Kernel-checked theorem C16: after any history of datagrams (each at most the buffer size) the value returned by receive() for a "
+                "datagram is Pdu.decode of that datagram's bytes alone, whatever earlier datagrams left in the 65535-byte buffer. The model (buffer "
+                "overwrite by recv_from, decode of buffer[..n]) is tied to transport.rs by running a real UdpTransport on 127.0.0.1: every corpus PDU "
+                "followed by its truncations, and truncations of shorter PDUs after longer ones; returned PDUs are compared with the model and with "
+                "PDU::decode of the datagram alone."),
+    level_note=("Trusted: Lean kernel; recv_from semantics (writes the datagram at buffer[0..n], returns n; datagrams larger than the buffer are cut by the OS); "
+                "codec model as in C05/C06; buffer size regenerated from the source (gen/enums.py)."),
+    rule=("udp engine: for each of ~36 corpus PDUs (all kinds x size flag x CRC) a fresh transport: the PDU, then its truncations (every length thorough, every "
+          "1+len/40 quick); 60 (thorough 600) random long/short pairs with 6 truncations each. Non-trivial = receive() returned a PDU."),
+    assumptions=["datagrams are at most 65535 bytes (larger ones are truncated by the OS before the code sees them)"],
+    unproved=[],
+)
